@@ -73,6 +73,7 @@ type Enc struct {
 	closureBinds map[string][]Val
 	allocHook func(fr *Frame, st *State, reach string, x ssa.Instruction, ln string, et types.Type)
 	opt *EncOpts
+	curState *State // state of the instruction being encoded
 	defMemo map[string]defMemoT
 	paramVals []Val
 	topTags map[string]bool
@@ -164,6 +165,16 @@ func (e *Enc) assume(term string) {
 
 func (e *Enc) oblig(kind, what string, reach, cond string, pos token.Pos, tags []string, text string, cl *Clause) *Obl {
 	goal := imp(reach, cond)
+	if e.mute == 0 && e.topFn != nil {
+		if c := e.ctx.contractOf(e.topFn); c != nil {
+			for _, k := range c.TrustKinds {
+				if k == kind || k == kind+"@"+strings.ReplaceAll(what, " ", "") {
+					e.note("%s obligations of %s are assumed (trustkind)", kind, shortKey(e.ctx.funcKey(e.topFn)))
+					return nil
+				}
+			}
+		}
+	}
 	if e.mute > 0 {
 		// callee-internal or scratch: panics there are the callee's own obligations; but execution continuing implies they held
 		return nil
@@ -521,6 +532,8 @@ func (e *Enc) wfAssume(st *State, reach string, v Val) {
 		if l.Kind == 'T' {
 			// nil interface: tag 0 <=> payload irrelevant; keep tag/pay consistent for nil
 			facts = append(facts, imp(eq(v.L[i], c64(0)), eq(v.L[i+1], c64(0))))
+			// modelling assumption: interface values coming from outside the function do not hold typed nil pointers
+			facts = append(facts, imp(not(eq(v.L[i], c64(0))), not(eq(v.L[i+1], c64(0)))))
 		}
 	}
 	if len(facts) > 0 {
